@@ -83,13 +83,12 @@ claim('C07', 'FULL, S3 (has_legal_moves = symbolic h): calc_outcome and calc_dra
       TB + S12N + 'NOT decided: "has_legal_moves is true exactly when a legal move exists" as a statement about the early-exit probe itself - the S6 wiring '
       'harness is unsound on the unchanged tree (unresolved unwinding failures) and the direct harness with the real filter needs more than 28 GB '
       'even for king + one pawn; the probe is exercised natively in every replay only.', 'DESIGN.md C07')
-claim('C09', 'Value level (san::Data / san::Move): into_move is sound for every value of every variant (a returned move is legal and agrees with '
-      'piece, destination, origin hints, promotion; no other legal move agrees, else Ambiguity with two distinct agreeing legal moves; a value that '
-      'denotes a legal move is not refused), from_move writes piece letter, destination, capture flag, promotion, castling side, check mark '
-      '(+ iff check, # iff check and no legal move under S3), disambiguation hints that exclude every other legal candidate, and resolves back to '
-      'the same move. Parser totality for strings up to 7 bytes (S4).',
-      TB + S12N + 'NOT decided: the rendering of a SAN value as text (Display; core::fmt exceeded 23 GB for one value) and the exact '
-      'grammar of the parser; minimality of the disambiguation with three or more like pieces (GEN(2) bounds the candidate search).', 'DESIGN.md C09')
+claim('C09', 'Decided: parser totality for every UTF-8 string up to 7 bytes (S4, S7); Data::Simple naming a pawn is refused with an error through into_move and '
+      'Make (defect 4); thorough: into_move for every Castling value is sound and complete on FULL (a returned move is legal and agrees with the value; a '
+      'value that denotes a legal move is not refused).',
+      TB + S12N + 'NOT decided (harnesses built but exceeding 24 GB or the time caps, so in no tier): into_move for the other variants, from_move '
+      '(piece letter, disambiguation, capture mark, check/mate mark, round trip); never attempted beyond probes: the rendering of a SAN value as text '
+      '(core::fmt) and the exact grammar of the parser. C09 is therefore a small partial claim.', 'DESIGN.md C09')
 claim('C10', 'FULL x every semilegal move: uci::Move::from(m).into_move(b) == m (kind inference). FULL x every uci::Move value: the semilegal / legal '
       'readers succeed exactly when a semilegal / legal move with that source, destination and promotion exists; null never accepted. Every UTF-8 '
       'string of at most 6 bytes: accepted iff it matches the UCI grammar, fields read correctly. Thorough: value -> text -> value through core::fmt, '
